@@ -512,6 +512,9 @@ def binop(eng, st, op, a, b, node):
         else:
             yield st, SBool((z3.And if isinstance(op, ast.BitAnd) else z3.Or)(zbool(a), zbool(b)))
         return
+    if isinstance(op, ast.Mod) and isinstance(a, str) and isinstance(b, (str, int)) and not isinstance(b, SV):
+        yield st, a % b
+        return
     if isinstance(op, ast.Mod) and isinstance(a, (str, SStr)):
         yield st, Str.fresh("fmt")
         return
@@ -970,7 +973,7 @@ def container_call(eng, st, target, name, args, kwargs, node=None):
                     if isinstance(ks, list):
                         yield s1, [((k, c.get(k)) if name == "items" else c.get(k)) for k in ks]
                     else:
-                        raise Unsupported("items() of symbolic-size map (use keys + lookup)")
+                        yield s1, ItemsSeq(c, ks, name)
             view = IterView(gen)
             if name == "values":
                 view.values_of = c     # supports `x in d.values()` on a symbolic map
@@ -1476,7 +1479,7 @@ def _bool(eng, st, args, kw, node):
 
 @builtin(str, repr)
 def _str(eng, st, args, kw, node):
-    if args and isinstance(args[0], (str, int, Fraction)) and not isinstance(args[0], SV):
+    if args and isinstance(args[0], (str, int, Fraction, enum.Enum)) and not isinstance(args[0], SV):
         yield st, str(args[0])
     else:
         yield st, Str.fresh("str")
@@ -1560,6 +1563,17 @@ def _enumerate(eng, st, args, kw, node):
             yield s, tuple((i + start, x) for i, x in enumerate(items))
         else:
             yield s, EnumSeq(items, start)
+
+
+class ItemsSeq:
+    """d.items() / d.values() of an insertion-ordered symbolic map: element i is (keys[i], d[keys[i]])"""
+
+    def __init__(self, m, keys, name):
+        self.m, self.keys, self.name, self.n = m, keys, name, keys.n
+
+    def at(self, i):
+        k = self.keys.at(i)
+        return (k, self.m.get(k)) if self.name == "items" else self.m.get(k)
 
 
 class EnumSeq:
